@@ -83,7 +83,7 @@ type divergence struct {
 }
 
 type stats struct {
-	cases, calls, nudged, shadowed, reorgs, utxos, usable, probes, probeBlocks, retried, tries, mints int
+	cases, calls, nudged, shadowed, reorgs, utxos, usable, probes, probeBlocks, retried, tries, mints, keeperUsable int
 	tOpen, tBuild, tRun, tCmp, tProbe                                                   time.Duration
 }
 
@@ -483,6 +483,7 @@ func replay(d doc) (divs []*divergence) {
 	}
 	sort.Strings(names)
 	perAcct := map[string]int{}
+	balance, votes := map[string]uint64{}, map[string]uint64{}
 	nvote := 0
 	for _, n := range names {
 		u, e := got[n], want[n]
@@ -512,6 +513,10 @@ func replay(d doc) (divs []*divergence) {
 		} else if amt != c.Amount {
 			vh.Fatal("harness: coin %s has amount %d, specification says %d", n, c.Amount, amt)
 		}
+		balance[e.Acct] += amt
+		if e.Kind == "vote" {
+			votes[e.Acct] += amt
+		}
 		var voteKey []byte
 		if e.Vote == "K" {
 			voteKey = bs.voteKey
@@ -539,6 +544,38 @@ func replay(d doc) (divs []*divergence) {
 			l := s.wal.GetAccountUtxos(bs.acctID[a], "", false, false, false)
 			if len(l) != perAcct[a] {
 				add("C24", "account-filter", "GetAccountUtxos for account %s lists %d outputs, the scan of the main chain has %d", a, len(l), perAcct[a])
+			}
+		}
+		// the balances and vote totals the wallet derives from the same records (wallet/indexer.go)
+		gotBal, gotVotes := map[string]uint64{}, map[string]uint64{}
+		if bl, err := s.wal.GetAccountBalances("", ""); err != nil {
+			add("C24", "balances-error", "GetAccountBalances failed: %v", err)
+		} else {
+			for _, x := range bl {
+				if x.AssetID != consensus.BTMAssetID.String() {
+					add("C24", "balances", "GetAccountBalances reports asset %s; the main chain holds BTM only", x.AssetID)
+				}
+				gotBal[bs.acctOf[x.AccountID]] += x.Amount
+			}
+		}
+		if vl, err := s.wal.GetAccountVotes("", ""); err != nil {
+			add("C24", "votes-error", "GetAccountVotes failed: %v", err)
+		} else {
+			for _, x := range vl {
+				gotVotes[bs.acctOf[x.AccountID]] += x.TotalVoteNumber
+				for _, dt := range x.VoteDetails {
+					if dt.Vote != hx(bs.voteKey) {
+						add("C24", "votes", "GetAccountVotes reports votes for key %s; the main chain has votes for %s only", dt.Vote, hx(bs.voteKey))
+					}
+				}
+			}
+		}
+		for _, a := range []string{"A", "B"} {
+			if gotBal[a] != balance[a] {
+				add("C24", "balances", "GetAccountBalances gives account %s %d BTM, the scan of the main chain gives %d", a, gotBal[a], balance[a])
+			}
+			if gotVotes[a] != votes[a] {
+				add("C24", "votes", "GetAccountVotes gives account %s %d votes, the scan of the main chain gives %d", a, gotVotes[a], votes[a])
 			}
 		}
 		if l := s.wal.GetAccountUtxos("", "", false, false, true); len(l) != nvote {
@@ -577,6 +614,9 @@ func replay(d doc) (divs []*divergence) {
 	for _, u := range std {
 		if _, err := k2.ReserveParticular(u.OutputID, false, exp); err == nil {
 			byParticular[u.OutputID] = true
+		}
+		if byReserve[u.OutputID] || byParticular[u.OutputID] {
+			st.keeperUsable++
 		}
 		if u.ValidHeight <= bestHeight || byReserve[u.OutputID] || byParticular[u.OutputID] {
 			usable = append(usable, u)
@@ -821,7 +861,7 @@ func main() {
 			vh.Fatal("worker: %v", err)
 		}
 		vh.Summary(map[string]interface{}{"partial": true, "cases": st.cases, "calls": st.calls, "distinct": len(shapes), "nudged": st.nudged,
-			"skipped_shadowed": st.shadowed, "reorg_cases": st.reorgs, "utxos_compared": st.utxos, "usable_checked": st.usable,
+			"skipped_shadowed": st.shadowed, "reorg_cases": st.reorgs, "utxos_compared": st.utxos, "usable_checked": st.usable, "usable_by_keeper": st.keeperUsable,
 			"mint_tries": st.tries, "mints": st.mints, "probe_spends": st.probes, "probe_blocks": st.probeBlocks, "retried": st.retried,
 			"ms_open": int(st.tOpen / time.Millisecond), "ms_build": int(st.tBuild / time.Millisecond), "ms_run_total": int(st.tRun / time.Millisecond),
 			"ms_compare": int(st.tCmp / time.Millisecond), "ms_probe": int(st.tProbe / time.Millisecond)})
